@@ -178,6 +178,7 @@ func (r *standardRenderer) listen() {
 	for {
 		select {
 		case <-r.done:
+			verifPause("listen: stop received")
 			r.ticker.Stop()
 			return
 
